@@ -26,7 +26,9 @@ import (
 	"google.golang.org/protobuf/types/known/wrapperspb"
 )
 
-var msgs = []string{"plain failure", "quote \" and \\ backslash", "multi\nline", "ünïcode ✓", "<html>&amp;", "x"}
+var msgs = []string{"plain failure", "quote \" and \\ backslash", "multi\nline", "ünïcode ✓", "<html>&amp;", "x",
+	// text that a printf-style helper would take for formatting verbs
+	"100% wrong", "invalid URL escape \"%zz\"", "%d items, %s left %v", "%!s(MISSING)", "tab\there %"}
 
 func classify(rec *httptest.ResponseRecorder, msg string) vc.Val {
 	body := rec.Body.Bytes()
